@@ -12,4 +12,7 @@ def run(tier):
               "single and joint front ends); every event of every completed run must be a step of TiccLoop with "
               "all its invariants; non-trivial = distinct runs with at least 2 rounds"),
         nontrivial=lambda t: (t["hdr"]["id"],) if sum(1 for e in t["events"] if e["ev"] == "round_begin") >= 2 else None,
-        assumptions=["ranking ties in cluster spread (never observed) would be resolved existentially"])
+        extra=_common.scripted_extra("C09"),
+        assumptions=["scripted runs (harness/scripted.py): the mixture-model initialisation and the likelihood table are substituted "
+                     "from the harness so that the real loop is taken through the label sequences of TiccLoop behaviours",
+                     "ranking ties in cluster spread (never observed) would be resolved existentially"])
